@@ -241,6 +241,10 @@ def main():
     shapes.append([("F", 3)])
     for a, b in itertools.product(ent[1:4] + other, repeat=2):
         shapes.append([a, b])
+    # fields whose keys have the same length (symbolic keys: they may be EQUAL - repeated field keys are written one by one)
+    shapes.append([("E", (1, 1))])
+    shapes.append([("E", (2, 1, 2))])
+    shapes.append([("E", (1, 1)), ("S",)])
     # a field-less entry beside others (it has no key to align, and must not end the column computation)
     for other_shape in ([("E", (3,))], [("E", (1, 2))], [("S",)], [("E", (1,)), ("E", (3,))]):
         for pos in range(len(other_shape) + 1):
